@@ -631,7 +631,17 @@ class Interp:
         op = e["op"]
         if op in ("&&", "||"):
             l = self.ev(e["l"], env)
+            lc_ = self.decide(l.e) if isinstance(l, BoolV) else None
+            if isinstance(lc_, bool):
+                if (op == "||" and lc_) or (op == "&&" and not lc_):
+                    return BoolV(lc_)
+                return self.ev(e["r"], env)
             r = self.ev(e["r"], env)
+            rc_ = self.decide(r.e) if isinstance(r, BoolV) else None
+            if isinstance(rc_, bool):
+                if (op == "||" and rc_) or (op == "&&" and not rc_):
+                    return BoolV(rc_)
+                return l
             return BoolV(Cond("other", text=f"{l!r}{op}{r!r}"))
         l = self.ev(e["l"], env)
         r = self.ev(e["r"], env)
@@ -751,6 +761,29 @@ class Interp:
             return v.e
         raise Unanalysable(f"condition {v!r}")
 
+    def decide(self, c):
+        """a comparison that the ordering oracle settles from guard facts / index bounds is a constant"""
+        if not isinstance(c, Cond) or c.a is None or c.b is None:
+            return c
+        try:
+            a, b = sp.sympify(c.a), sp.sympify(c.b)
+        except Exception:
+            return c
+        val = None
+        if c.op == "lt":
+            if lt(a, b, self.bounds):
+                val = True
+            elif le(b, a, self.bounds):
+                val = False
+        elif c.op == "eq":
+            if eq(a, b):
+                val = True
+            elif lt(a, b, self.bounds) or lt(b, a, self.bounds):
+                val = False
+        if val is None:
+            return c
+        return val != c.neg
+
     def block_always_returns(self, b):
         """syntactic: last statement / expr of the block is `return ...`"""
         if b["k"] != "Block":
@@ -775,6 +808,7 @@ class Interp:
             ]}
             return self.match_val(scrut, fake, env)
         c = self.as_cond(self.ev(e["c"], env))
+        c = self.decide(c)
         if isinstance(c, bool):
             slog(self, "if-const", e, True, str(c))
             if c:
@@ -852,6 +886,11 @@ class Interp:
                 self.bounds.add_le(c.b, c.a)
             else:  # !(a < b) aborts -> a + 1 <= b
                 self.bounds.add_le(c.a + 1, c.b)
+        if isinstance(c, Cond) and c.op == "eq" and not c.neg and c.a is not None:
+            # a == b aborts -> a != b afterwards; for counts compared with 0 this is a >= 1
+            for x, y in ((c.a, c.b), (c.b, c.a)):
+                if sp.sympify(y) == 0:
+                    self.bounds.add_le(1, x)
         if isinstance(c, Cond) and c.op == "eq" and c.neg and c.a is not None:
             # a != b aborts -> a == b afterwards
             self.bounds.add_le(c.a, c.b)
